@@ -423,6 +423,23 @@ func (s *Store) Eq(x, y *Term) *Term {
 			return tFalse
 		}
 	}
+	// the same bits from the same sources in the same places: equal whatever
+	// the variables are (and a constant bit that differs: never equal)
+	if x.kind == KBV && x.w <= 64 && !x.IsConst() && !y.IsConst() {
+		bx, by := s.bitsOf(x), s.bitsOf(y)
+		same := true
+		for i := range bx {
+			if bx[i] != by[i] {
+				same = false
+				if bx[i].isConst() && by[i].isConst() {
+					return tFalse
+				}
+			}
+		}
+		if same {
+			return tTrue
+		}
+	}
 	// ite(c, k1, k2) == k  with constants: fold
 	if y.IsConst() && x.op == OpIte && x.a[1].IsConst() && x.a[2].IsConst() {
 		e1 := x.a[1].c == y.c
